@@ -44,7 +44,7 @@ CaseEv == [ev |-> "case", id |-> "m", noid |-> FALSE, subs |-> <<>>,
            mode |-> Mode, nodes |-> Scenario.nodes, edges |-> Scenario.edges,
            branches |-> [i \in 1..Len(brs) |-> [from |-> brs[i].from, ends |-> NameSeq(brs[i].ends), multi |-> brs[i].multi, data |-> Mode # "wf"]],
            max |-> deco.max, before |-> NameSeq(deco.before), after |-> NameSeq(deco.after), rerun |-> NameSeq(deco.rerun),
-           state |-> Stateful, fail |-> deco.fail]
+           state |-> Stateful, fail |-> deco.fail, post |-> FALSE, hmod |-> FALSE]
 MaxStepsImpl == IF deco.max = 0 THEN N + 10 ELSE deco.max      \* graph.go: len(chanSubscribeTo) + 10
 
 \* ------------------------------------------------------------------ static structure, as compile() derives it
@@ -135,11 +135,11 @@ FoldApply(s, evs) == LET RECURSIVE F(_, _)
 NodeSeq(S) == SeqOfSet(S, Ord)
 FailOf(n) == IF deco.fail # <<>> /\ deco.fail[1].n = n THEN deco.fail[1].kind ELSE "none"
 ResultEv(v) == [ev |-> "result", v |-> v, sets |-> <<>>]
-IntrEv(bef, aft, rer, trail) == [ev |-> "interrupt", before |-> NodeSeq(bef), after |-> NodeSeq(aft), rerun |-> NodeSeq(rer),
-                                 sub |-> Empty, st |-> trail, hasst |-> Stateful, sets |-> <<"cp-m">>]
+IntrEv(bef, aft, rer, trail, cnt) == [ev |-> "interrupt", before |-> NodeSeq(bef), after |-> NodeSeq(aft), rerun |-> NodeSeq(rer),
+                                      sub |-> Empty, st |-> trail, cnt |-> cnt, hasst |-> Stateful, sets |-> <<"cp-m">>]
 
 RunInit == /\ rs = R!Idle /\ ch = Empty /\ next = Empty /\ running = Empty /\ step = 0 /\ rstat = "idle"
-           /\ ckpt = Empty /\ st = [trail |-> <<>>, saved |-> Empty] /\ attempts = {} /\ calls = 0
+           /\ ckpt = Empty /\ st = [trail |-> <<>>, saved |-> Empty, cnt |-> 0] /\ attempts = {} /\ calls = 0
 Init == GenInit /\ RunInit
 
 Begin == /\ phase = "done" /\ rstat = "idle"
@@ -152,7 +152,7 @@ Finished(evs, status) == /\ rs' = FoldApply(rs, evs) /\ rstat' = status
 \* handleInterrupt: checkpoint = channels + inputs of the tasks not started
 SaveSimple(C, nx, bef, aft, evs) ==
   /\ ckpt' = [ch |-> C, inputs |-> nx, st |-> st]
-  /\ rs' = FoldApply(rs, evs \o <<IntrEv(bef, aft, {}, st.trail)>>)
+  /\ rs' = FoldApply(rs, evs \o <<IntrEv(bef, aft, {}, st.trail, st.cnt)>>)
   /\ rstat' = "interrupted" /\ ch' = C /\ next' = Empty /\ running' = Empty
   /\ UNCHANGED <<gvars, step, st, attempts, calls>>
 
@@ -166,7 +166,12 @@ Start == /\ rstat = "init"
 
 \* pre-handlers of the submitted tasks run first, sequentially (taskManager.submit); then the bodies
 PreEvs(order, restoredRerun) ==
-  IF ~Stateful THEN <<>> ELSE [k \in 1..Len(order) |-> [ev |-> "pre", p |-> "", n |-> order[k], rebuilt |-> order[k] \in restoredRerun]]
+  IF ~Stateful THEN <<>>
+  ELSE LET RECURSIVE P(_)
+           P(k) == IF k > Len(order) THEN <<>>
+                   ELSE << [ev |-> "cs", p |-> "", k |-> "pre", n |-> order[k], seq |-> st.cnt + k - 1],
+                           [ev |-> "pre", p |-> "", n |-> order[k], rebuilt |-> order[k] \in restoredRerun] >> \o P(k + 1)
+       IN P(1)
 TrailAfter(order, restoredRerun) == st.trail \o SelectSeq(order, LAMBDA n : n \notin restoredRerun)
 \* what the body of n receives: rerun nodes restored from a checkpoint get their input rebuilt from state
 BodyInput(n, restoredRerun) == IF n \in restoredRerun THEN st.saved[n] ELSE next[n]
@@ -189,14 +194,15 @@ BatchStep ==
                          B(k) == IF k > Len(order) THEN <<>>
                                  ELSE LET n == order[k]
                                           base == [p |-> "", n |-> n, i |-> inp[n]] @@ (IF Stateful THEN [st |-> trail2] ELSE Empty)
-                                      IN (IF n \in aborting THEN <<[ev |-> "abort"] @@ base>>
+                                          csev == IF Stateful THEN <<[ev |-> "cs", p |-> "", k |-> "body", n |-> n, seq |-> st.cnt + Len(order) + k - 1]>> ELSE <<>>
+                                      IN csev \o (IF n \in aborting THEN <<[ev |-> "abort"] @@ base>>
                                           ELSE IF n \in failing THEN <<[ev |-> "exec"] @@ base>>
                                           ELSE <<[ev |-> "exec"] @@ base, [ev |-> "done", p |-> "", n |-> n]>>) \o B(k + 1)
                      IN B(1)
           evs0 == PreEvs(order, restoredRerun) \o bodyEvs
           outs == [n \in okNodes |-> Out(n, inp[n])]
           aft == okNodes \cap deco.after
-          st2 == [trail |-> trail2, saved |-> [n \in aborting |-> inp[n]] @@ st.saved]
+          st2 == [trail |-> trail2, saved |-> [n \in aborting |-> inp[n]] @@ st.saved, cnt |-> IF Stateful THEN st.cnt + 2 * Len(order) ELSE st.cnt]
       IN IF failing # {} THEN
               LET n == CHOOSE x \in failing : TRUE IN
               /\ rs' = FoldApply(rs, evs0 \o <<[ev |-> "error", class |-> IF FailOf(n) = "err" THEN "node" ELSE "panic", path |-> <<n>>,
@@ -207,7 +213,7 @@ BatchStep ==
               LET r == ResolveAll(ch, outs, NodeSeq(okNodes))
                   C2 == Update(r.C, r.writes, r.deps)
               IN /\ ckpt' = [ch |-> C2, inputs |-> [n \in aborting |-> Empty], st |-> st2, rr |-> aborting]
-                 /\ rs' = FoldApply(rs, evs0 \o r.evs \o <<IntrEv({}, aft, aborting, trail2)>>)
+                 /\ rs' = FoldApply(rs, evs0 \o r.evs \o <<IntrEv({}, aft, aborting, trail2, st2.cnt)>>)
                  /\ rstat' = "interrupted" /\ ch' = C2 /\ next' = Empty /\ st' = st2 /\ attempts' = attempts \cup aborting
                  /\ UNCHANGED <<gvars, running, step, calls>>
          ELSE LET r == Calc(ch, outs, order) IN
@@ -217,7 +223,7 @@ BatchStep ==
               ELSE LET nx == [n \in r.ready |-> r.inputs[n]]  bh == r.ready \cap deco.before IN
                    IF bh # {} \/ aft # {} THEN
                         /\ ckpt' = [ch |-> r.C, inputs |-> nx, st |-> st2]
-                        /\ rs' = FoldApply(rs, evs0 \o r.evs \o <<IntrEv(bh, aft, {}, trail2)>>)
+                        /\ rs' = FoldApply(rs, evs0 \o r.evs \o <<IntrEv(bh, aft, {}, trail2, st2.cnt)>>)
                         /\ rstat' = "interrupted" /\ ch' = r.C /\ next' = Empty /\ st' = st2
                         /\ UNCHANGED <<gvars, running, step, attempts, calls>>
                    ELSE /\ rs' = FoldApply(rs, evs0 \o r.evs) /\ ch' = r.C /\ next' = nx /\ step' = step + 1 /\ st' = st2
@@ -225,7 +231,7 @@ BatchStep ==
                         /\ UNCHANGED <<gvars, running, rstat, attempts, calls>>
 
 Resume == /\ rstat = "interrupted" /\ calls < MaxCalls
-          /\ rs' = R!Apply(rs, [ev |-> "resume", call |-> "invoke"])
+          /\ rs' = R!Apply(rs, [ev |-> "resume", call |-> "invoke", mod |-> 0])
           /\ ch' = ckpt.ch /\ next' = ckpt.inputs /\ st' = ckpt.st /\ step' = 0 /\ rstat' = "run"
           /\ ckpt' = IF "rr" \in DOMAIN ckpt THEN [rr |-> ckpt.rr] ELSE Empty
           /\ calls' = calls + 1 /\ UNCHANGED <<gvars, running, attempts>>
